@@ -113,10 +113,10 @@ def cmpValue (I : VI) (v : EP) : Int :=
 
 def contains (I : VI) (v : EP) : Bool := cmpValue I v = 0
 
-private def ceilE : EP → Int
+def ceilE : EP → Int
   | .fin q => qCeil q
   | _ => 0
-private def floorE : EP → Int
+def floorE : EP → Int
   | .fin q => qFloor q
   | _ => 0
 
